@@ -2,8 +2,13 @@ package props
 
 import (
 	"bytes"
+	"encoding/binary"
+	"encoding/json"
 	"fmt"
+	"github.com/parquet-go/parquet-go"
 	"os"
+	"pqsim/core"
+	"pqsim/tape"
 	"testing"
 
 	"github.com/parquet-go/parquet-go/encoding/thrift"
@@ -38,5 +43,62 @@ func TestDumpPages(t *testing.T) {
 			fmt.Printf(" v1 nv=%d stats: min=%v max=%v minv=%v maxv=%v nc=%v", h.DataPageHeader.V.NumValues, s.Min, s.Max, s.MinValue, s.MaxValue, s.NullCount)
 		}
 		fmt.Println()
+	}
+}
+
+// TestC18Modules is a triage aid: PQSIM_REPLAY=<C18 replay file> lists the
+// module envelopes of the scenario's file and what the metadata says lives there.
+func TestC18Modules(t *testing.T) {
+	path := os.Getenv("PQSIM_REPLAY")
+	if path == "" {
+		t.Skip()
+	}
+	r, err := core.ReadReplay(path)
+	if err != nil {
+		t.Fatal(err)
+	}
+	sc := &C18Scenario{}
+	json.Unmarshal(r.Scenario, sc)
+	run := &c18run{sc: sc, c: core.NewCtx("x")}
+	run.sh, run.data = sc.Plan.MakeData()
+	sc.Pools.Install()
+	kr := tape.NewRng(sc.RandSeed ^ 0x9e3779b97f4a7c15)
+	run.keys = &keyRing{footer: make([]byte, []int{16, 24, 32}[kr.Intn(3)]), cols: map[string][]byte{}}
+	kr.Bytes(run.keys.footer)
+	for _, p := range sc.ColumnKeys {
+		k := make([]byte, 16)
+		kr.Bytes(k)
+		run.keys.cols[p] = k
+	}
+	good, _ := run.write([]byte("fileid01"), 0)
+	flen := int64(binary.LittleEndian.Uint32(good[len(good)-8:]))
+	footer := int64(len(good)) - 8 - flen
+	mods, ok := walkModules(good, footer)
+	fmt.Println("file", len(good), "footer at", footer, "modules", len(mods), ok)
+	f, err := parquet.OpenFile(bytes.NewReader(good), int64(len(good)), parquet.WithDecryption(run.keys))
+	if err != nil {
+		t.Fatal(err)
+	}
+	label := map[int64]string{}
+	for gi, rg := range f.Metadata().RowGroups {
+		for ci, col := range rg.Columns {
+			m := col.MetaData
+			label[m.DataPageOffset] = fmt.Sprintf("rg%d col%d data", gi, ci)
+			if m.DictionaryPageOffset != 0 {
+				label[m.DictionaryPageOffset] = fmt.Sprintf("rg%d col%d dict", gi, ci)
+			}
+			if m.BloomFilterOffset != 0 {
+				label[m.BloomFilterOffset] = fmt.Sprintf("rg%d col%d bloom len=%d", gi, ci, m.BloomFilterLength)
+			}
+			if col.ColumnIndexOffset != 0 {
+				label[col.ColumnIndexOffset] = fmt.Sprintf("rg%d col%d colindex", gi, ci)
+			}
+			if col.OffsetIndexOffset != 0 {
+				label[col.OffsetIndexOffset] = fmt.Sprintf("rg%d col%d offindex", gi, ci)
+			}
+		}
+	}
+	for i, m := range mods {
+		fmt.Printf("%4d off=%6d len=%5d %s\n", i, m[0], m[1], label[m[0]])
 	}
 }
